@@ -95,6 +95,41 @@ class SymExec(object):
         self.fresh += 1
         return sym("opaque%d<%s>" % (self.fresh, ekey(node)[:20]))
 
+    def fork(self):
+        import copy
+        o = SymExec(self.linear_ops, self.copy_methods)
+        o.state = dict(self.state)
+        o.fresh = self.fresh
+        o.calls = list(self.calls)
+        return o
+
+    def run_paths(self, stmts):
+        """Every path through the `if` statements of a block (tests are not interpreted: both branches are followed; a `return` ends its path).
+        Returns the list of SymExec objects, one per path, each with its final state.  Loops contribute one representative iteration."""
+        live = [self]
+        done = []
+        for st in stmts:
+            nxt = []
+            for se in live:
+                if isinstance(st, ast.If):
+                    for branch in (st.body, st.orelse):
+                        b = se.fork()
+                        ended = False
+                        subs = b.run_paths(branch)
+                        for x in subs:
+                            if getattr(x, "_returned", False):
+                                done.append(x)
+                            else:
+                                nxt.append(x)
+                elif isinstance(st, ast.Return):
+                    se._returned = True
+                    done.append(se)
+                else:
+                    se.run([st])
+                    nxt.append(se)
+            live = nxt
+        return done + live
+
     def run(self, stmts):
         for st in stmts:
             if isinstance(st, ast.Assign) and len(st.targets) == 1:
